@@ -344,3 +344,130 @@ class ValueBounded(FunctionContract):
             nx = rng.randint(1, 6)
             x = np.array([rng.uniform(t[0] - 0.5, t[-1] + 0.5) for _ in range(nx)])
             yield dict(t=t, c=c, x=x, nord=nord)
+
+
+@register("C08")
+class KnotConstruction:
+    """bspline.__init__: for every way of specifying breakpoints the knot vector is non-decreasing, covers the data range
+    (to single-precision rounding) and carries nord-1 extra knots on each side (bounded, numerical)"""
+    name = "knot_construction"
+    prop = "C08"
+    target = "pydl.pydlutils.bspline:bspline.__init__"
+    level = "B"
+    KINDS = ("non_decreasing", "covers_data_range", "nord_minus_one_extra_knots_each_side", "attributes_consistent", "no_unexpected_exception")
+
+    def _cases(self, rng, n):
+        for rep in range(n):
+            nx = rng.choice([2, 3, 5, 11, 21, 50])
+            kind = rng.choice(["uniform", "clustered", "unsorted"])
+            if kind == "uniform":
+                x = np.linspace(rng.uniform(-5, 5), rng.uniform(6, 20), nx)
+            else:
+                x = np.array(sorted(rng.choice([0.0, 1.0, 5.0]) + rng.uniform(0, 3) for _ in range(nx)))
+            if kind == "unsorted":
+                x = x.copy()
+                rng.shuffle(x)
+            nord = rng.randint(1, 6)
+            lo, hi = float(x.min()), float(x.max())
+            opt = rng.choice(["bkpt", "placed", "placed_one_in_range", "placed_none_in_range", "bkspace", "bkspace_huge", "nbkpts", "nbkpts_1", "everyn", "everyn_big"])
+            kw = {}
+            if opt == "bkpt":
+                a_, b_ = lo + rng.choice([-1, 0, 0.5]), hi + rng.choice([-0.5, 0, 1])
+                if b_ <= a_:
+                    a_, b_ = lo, hi + (1.0 if hi == lo else 0.0)
+                kw["bkpt"] = np.linspace(a_, b_, rng.randint(2, 6)).astype("f")      # explicit breakpoints are given in increasing order
+            elif opt == "placed":
+                kw["placed"] = np.sort(np.array([rng.uniform(lo - 1, hi + 1) for _ in range(rng.randint(2, 6))]))
+            elif opt == "placed_one_in_range":
+                kw["placed"] = np.array([lo - 5.0, (lo + hi) / 2.0, hi + 5.0])
+            elif opt == "placed_none_in_range":
+                kw["placed"] = np.array([lo - 5.0, hi + 5.0])
+            elif opt == "bkspace":
+                kw["bkspace"] = (hi - lo) / rng.choice([1.5, 3.0, 7.0]) if hi > lo else 1.0
+            elif opt == "bkspace_huge":
+                kw["bkspace"] = 10.0 * (hi - lo + 1.0)
+            elif opt == "nbkpts":
+                kw["nbkpts"] = rng.randint(2, 8)
+            elif opt == "nbkpts_1":
+                kw["nbkpts"] = rng.choice([0, 1])
+            elif opt == "everyn":
+                kw["everyn"] = rng.randint(1, max(1, nx // 2))
+            else:
+                kw["everyn"] = nx + rng.randint(0, 3)
+            yield dict(x=x, nord=nord, opt=opt, kw=kw, inp=dict(rep=rep, option=opt, nx=int(nx), nord=nord, sampling=kind))
+
+    def _check(self, c):
+        import warnings
+        from pydl.pydlutils.bspline import bspline
+        bad = []
+        x, nord = c["x"], c["nord"]
+        with warnings.catch_warnings():
+            warnings.simplefilter("ignore")
+            kw = {k: (v.copy() if hasattr(v, "copy") else v) for k, v in c["kw"].items()}
+            s = bspline(x, nord=nord, **kw)
+        t = np.asarray(s.breakpoints, dtype=float)
+        if np.any(np.diff(t) < 0):
+            bad.append(("non_decreasing", "knots %s" % t))
+        eps = 1e-5 * max(1.0, abs(x.min()), abs(x.max()))
+        if len(t) < 2 * nord or t[nord - 1] > x.min() + eps or t[len(t) - nord] < x.max() - eps:
+            bad.append(("covers_data_range", "inner knots [%s, %s] vs data [%s, %s]" % (t[nord - 1] if len(t) >= nord else None,
+                                                                                         t[len(t) - nord] if len(t) >= nord else None, x.min(), x.max())))
+        nshort = len(t) - 2 * (nord - 1)
+        if nshort < 1:
+            bad.append(("nord_minus_one_extra_knots_each_side", "only %d knots for order %d" % (len(t), nord)))
+        else:
+            inner = t[nord - 1:nord - 1 + nshort]
+            step = (inner[1] - inner[0]) if nshort > 1 else 1.0
+            left = [inner[0] - step * i for i in range(nord - 1, 0, -1)]
+            right = [inner[-1] + step * i for i in range(1, nord)]
+            if not np.allclose(t[:nord - 1], left, rtol=1e-5, atol=1e-6) or not np.allclose(t[len(t) - nord + 1:], right, rtol=1e-5, atol=1e-6):
+                bad.append(("nord_minus_one_extra_knots_each_side", "padding %s | %s" % (t[:nord - 1], t[len(t) - nord + 1:])))
+        if s.nord != nord or s.mask.shape != t.shape or not s.mask.all() or np.shape(s.coeff) != (len(t) - nord,) or np.any(np.asarray(s.coeff) != 0):
+            bad.append(("attributes_consistent", "nord %s mask %s coeff %s" % (s.nord, s.mask.shape, np.shape(s.coeff))))
+        return bad
+
+    def run_job(self, tier, seed, exclusions):
+        import random
+        import time
+        import traceback
+        t0 = time.time()
+        res = JobResult(job=self.name, target=self.target, level="B", prop="C08", obligations=[], failures=[], crashed=None,
+                        bound="generated abscissae (2..50 points, uniform / clustered / unsorted), orders 1..6, every breakpoint option incl. edge cases "
+                              "(one or no placed value in range, spacing larger than the range, fewer than two breakpoints, everyn not dividing or exceeding the sample)",
+                        paths=0, solver_s=0.0, queries=0, native_runs=0, native_failures=[], vacuity=None,
+                        assumptions=["numerical check to single-precision tolerance on generated inputs only (knot placement is float32 arithmetic: undecided by proof)"])
+        fails = {}
+        n = 0
+        try:
+            rng = random.Random(seed * 11 + 1)
+            for c in self._cases(rng, 300 if tier == "quick" else 3000):
+                n += 1
+                try:
+                    for kind, msg in self._check(c):
+                        fails.setdefault(kind, []).append((msg, c["inp"]))
+                except Exception as e:
+                    fails.setdefault("no_unexpected_exception", []).append(("%s: %s" % (type(e).__name__, str(e)[:150]), c["inp"]))
+            res["paths"] = res["native_runs"] = n
+            for kd in self.KINDS:
+                b = fails.get(kd, [])
+                d = dict(name="knot_construction:" + kd, path=0, status="unsat" if not b else "sat", secs=0.0, backend="native-numeric", size=0,
+                         note="" if not b else b[0][0])
+                if b:
+                    d.update(inputs=dict(clause=kd, seed=seed, **b[0][1]), model=str(b[:3])[:1200], reason="")
+                res["obligations"].append(d)
+            res["vacuity"] = dict(cases=n)
+        except Exception:
+            res["crashed"] = traceback.format_exc()
+        res["wall_s"] = time.time() - t0
+        return res
+
+    def native_replay(self, inputs):
+        import random
+        rng = random.Random(int(inputs.get("seed", 0)) * 11 + 1)
+        for c in self._cases(rng, int(inputs["rep"]) + 1):
+            last = c
+        try:
+            bad = self._check(last)
+        except Exception as e:
+            bad = [("no_unexpected_exception", "%s: %s" % (type(e).__name__, e))]
+        return (not bad, "bspline(x[%d], nord=%d, %s): %s" % (last["x"].size, last["nord"], {k: (v.tolist() if hasattr(v, "tolist") else v) for k, v in last["kw"].items()}, bad[:2]))
